@@ -144,7 +144,25 @@ the write fails: a false "concurrent write" panic on the third call; the sequent
 and now run under C11 as well), C14-r72 (the rejected reply's body cut to what was already buffered when no
 timeout is configured: a third of the C14 replies now arrive in pieces; clause 118 = fewer body bytes kept than
 the reply carried). C14-r71 (Host: ::1 for ws://[::1]/) was caught by the correspondence only; clause 117 (the
-Host header is the URL's host as written or the caller's override) makes it concrete.""")
+Host header is the URL's host as written or the caller's override) makes it concrete.
+
+Round 8: twenty more (`seeded/Cxx-r8n`) for the round-6 properties, same arrangement. Eight were missed at first,
+the largest share since round 1 - the agents, told what had been done, went for entry points and options the
+harness had never used: C02-r82 (a PreparedMessage's private rendering connection kept and re-targeted, its
+compressor never cleared: RSV1 on a connection without the extension) and C15-r81 (one cache entry shared by
+connections with and without negotiated compression) are exhibited by the PreparedMessage sharing harness C19, which
+now also runs under C02 and C15; C15-r82 (a pooled truncWriter put back with four stale bytes after a write failed
+in the middle of a compressed multi-frame message: the next compressed message on another connection is corrupt) is
+exhibited by the multi-connection harness C02m, now also under C15; C04-r82 (a Dialer with EnableCompression
+installing the decompressor before the 101 is read: RSV1 accepted although the server declined) - a third of the
+client C04 cases now come from a real Dial whose offer was declined; C06-r82 (the limit applied to the inflated
+size) - compressed messages of at most L wire bytes inflating to up to 40000 bytes must be read in full, and the
+C06 Spec now inflates what lies within the limit; C08-r82 (handlers given a string aliasing the read buffer) - the
+harness's handlers keep the very strings they were given and look at them only when the run is over; C13-r82
+(the TLS server name taking the Host header's place) - a fifth of the C13 requests carry a TLS state whose
+ServerName is the origin's host, the Host, or a third name; C20-r81 (WriteJSON returning the encode error
+without closing its writer: the pool buffer stays with an idle connection) - write programs now contain WriteJSON
+of an unencodable value, which must behave as the empty text message it sends.""")
 sec = open('/verif/tools/design_sec11.md').read().replace('SEEDED_TABLE', '\n'.join(rows))
 d = open('/verif/DESIGN.md').read()
 d = re.sub(r'## 11\. As built.*?(?=## Appendix A\.)', '', d, flags=re.S)
